@@ -1,4 +1,5 @@
 #!/bin/bash
+export VERIF_EVIDENCE_DIR=/verif/build/evidence-scratch
 # dev aid: all quick checks on the unchanged tree for several seeds, 9 at a time; prints every alarm
 cd /verif; mkdir -p build/stress
 for seed in "$@"; do
